@@ -86,57 +86,89 @@ def r12_1(ctx: Ctx):
             seq_scans.append(f)
             continue
         pm = parents_map(f.node)
-        done = set()
-        for rd in _reads_handle(f.node, handle):
-            st = enclosing_stmt(rd, pm)
-            if id(st) in done:
-                continue
-            done.add(id(st))
+        reads = _reads_handle(f.node, handle)
+        if not reads:
+            continue
+        read_stmts = {id(enclosing_stmt(rd, pm)): enclosing_stmt(rd, pm) for rd in reads}
+
+        def seek_of(st):
+            for c in ast.walk(st):
+                if isinstance(c, ast.Call) and call_name(c) == "seek_atom" and isinstance(c.func, ast.Attribute) \
+                        and attr_chain(c.func.value) == handle and c.args:
+                    return c
+            return None
+
+        def is_yield(st):
+            return any(isinstance(x, (ast.Yield, ast.YieldFrom)) for x in ast.walk(st))
+
+        def moves_handle(st):
+            # any other use of the handle, or a call of another method of the view (which may move the cursor)
+            for c in ast.walk(st):
+                if isinstance(c, ast.Call) and isinstance(c.func, ast.Attribute):
+                    if attr_chain(c.func.value) == handle and c.func.attr not in ("seek_atom",):
+                        return True
+                    if norm(c.func.value) == "self" and c.func.attr in cls.methods:
+                        return True
+                if isinstance(c, ast.Subscript) and norm(c.value) == "self":
+                    return True
+            return False
+        # typestate along every path: a read needs the cursor to have been set by seek_atom since the last point where
+        # it could have moved (function entry, a yield, another use of the handle)
+        verdict: Dict[int, Tuple[bool, str, dict]] = {}
+        for p_ in enum_paths(f.node.body):
+            state, seek_c = "unknown", None
+            for ev in p_.events:
+                if ev[0] != "s":
+                    continue
+                st = ev[1]
+                if id(st) in read_stmts:
+                    sk = seek_of(st)
+                    if sk is not None:
+                        state, seek_c = "set", sk
+                    ok_ = state in ("set", "reading")
+                    why_ = "" if ok_ else "the cursor may have moved since it was last set (no seek_atom on this path between the last yield / other use of the handle and the read)"
+                    prev_ok = verdict.get(id(st), (True, "", {}))[0]
+                    facts_ = {"seek": norm(seek_c)[:80] if seek_c is not None else None}
+                    verdict[id(st)] = (prev_ok and ok_, why_ if not ok_ else verdict.get(id(st), (True, "", {}))[1], facts_)
+                    if ok_:
+                        # start and record count come from the same (kind, start, length) tuple
+                        start = norm(seek_c.args[0])
+                        counts = []
+                        for comp in ast.walk(st):
+                            if isinstance(comp, ast.comprehension) and isinstance(comp.iter, ast.Call) \
+                                    and call_name(comp.iter) == "range" and len(comp.iter.args) == 1:
+                                counts.append(norm(comp.iter.args[0]))
+                        for a_ in ancestors(st, pm):
+                            if isinstance(a_, ast.For) and isinstance(a_.iter, ast.Call) and call_name(a_.iter) == "range" and len(a_.iter.args) == 1:
+                                counts.append(norm(a_.iter.args[0]))
+                        cnt = counts[0] if counts else None
+                        if cnt is not None:
+                            same = {start, cnt} <= set(f.params)
+                            for n in ast.walk(f.node):
+                                tgts = [n.target] if isinstance(n, (ast.For, ast.comprehension)) else (n.targets if isinstance(n, ast.Assign) else [])
+                                for t in tgts:
+                                    if isinstance(t, ast.Tuple) and {start, cnt} <= {norm(e) for e in t.elts}:
+                                        same = True
+                            if not same:
+                                verdict[id(st)] = (False, "start `%s` and record count `%s` do not come from the same (kind, start, length) tuple" % (start, cnt),
+                                                   {"seek": norm(seek_c), "start": start, "count": cnt})
+                            else:
+                                verdict[id(st)][2].update({"start": start, "count": cnt})
+                    state = "reading" if ok_ else "unknown"
+                    continue
+                sk = seek_of(st)
+                if sk is not None:
+                    state, seek_c = "set", sk
+                elif is_yield(st) or moves_handle(st):
+                    state, seek_c = "unknown", None
+        for sid, st in read_stmts.items():
             sites += 1
-            blk = None
-            par = pm.get(id(st))
-            for fld in ("body", "orelse", "finalbody"):
-                b = getattr(par, fld, None)
-                if isinstance(b, list) and any(s is st for s in b):
-                    blk = b
-            prev = blk[blk.index(st) - 1] if blk and blk.index(st) > 0 else None
-            ok = False
-            why = "no statement precedes the read in its block"
-            facts = {}
-            if prev is not None:
-                why = "the statement before the read is `%s`, not a seek on the handle" % norm(prev)[:80]
-                if isinstance(prev, ast.Expr) and isinstance(prev.value, ast.Call) and call_name(prev.value) == "seek_atom" \
-                        and attr_chain(prev.value.func.value) == handle and prev.value.args:
-                    start = norm(prev.value.args[0])
-                    # number of records read
-                    counts = []
-                    for comp in ast.walk(st):
-                        if isinstance(comp, ast.comprehension) and isinstance(comp.iter, ast.Call) \
-                                and call_name(comp.iter) == "range" and len(comp.iter.args) == 1:
-                            counts.append(norm(comp.iter.args[0]))
-                    cnt = counts[0] if counts else None
-                    # same tuple origin
-                    same = False
-                    for n in list(ancestors(st, pm)) + list(blk):
-                        tgts = []
-                        if isinstance(n, ast.For):
-                            tgts = [n.target]
-                        elif isinstance(n, ast.Assign):
-                            tgts = n.targets
-                        for t in tgts:
-                            if isinstance(t, ast.Tuple):
-                                names = [norm(e) for e in t.elts]
-                                if start in names and cnt in names:
-                                    same = True
-                    no_yield_between = True
-                    ok = same and cnt is not None
-                    why = "" if ok else ("start `%s` and record count `%s` do not come from the same "
-                                         "(kind, start, length) tuple" % (start, cnt))
-                    facts = {"seek": norm(prev), "start": start, "count": cnt}
+            ok, why, facts = verdict.get(sid, (True, "", {}))
             ctx.ob("R12.1", f, st, ok,
-                   "every batch of record reads on the shared handle is immediately preceded by seek_atom(start) "
-                   "with the start/length of the same residue" + ("" if ok else " -- " + why), node=st, **facts)
-    ctx.floor("R12.1", sites, 3, "read sites on the shared handle")
+                   "every batch of record reads on the shared handle is preceded, with no yield or other use of the handle "
+                   "in between, by seek_atom(start) with the start/length of the same residue" + ("" if ok else " -- " + why),
+                   node=st, **{k_: v_ for k_, v_ in facts.items() if v_ is not None})
+    ctx.floor("R12.1", sites, 1, "read sites on the shared handle")
     # the sequential scan at construction starts at atom 0: the reader leaves the cursor there
     load = ctx.func("GroFile._load_and_verify")
     cfg = CFG(load.node)
